@@ -194,6 +194,10 @@ def run(chk):
                 okl = y.key().endswith(", 1]") and x.key().endswith(", 0]")
         chk.ob("R19.3", W, "winding_order_ccw", "points are sorted by ascending atan2(v, u) about the first point", okl and "reverse" not in rk and "sorted(" in rk,
                found=rk[:200])
+        others = [r for r in wv.returns[:-1] if r.value is not None and r.value.key() != rk]
+        chk.ob("R19.3", W, "winding_order_ccw", "every return is that sorted order (three points still have two orientations: an early return of the "
+               "given order leaves about half of the triangular facets clockwise)", not others, node=others[0].node if others else None,
+               fingerprint="winding:all-returns", found=[f"line {r.lineno}: return {str(r.value)[:80]}" for r in others][:2])
         tv = w.ev("order_and_triangulate_polygons", opaque={"facet", "N"})
         chk.saw(W, "order_and_triangulate_polygons")
         t = [e for e in tv.events if e.kind == "assign" and e.name == "t"]
